@@ -16,6 +16,7 @@ def gen(rng, kind, subset, obs_subset, hetero):
                plain=[dy(rng, 1, 3), dy(rng), dy(rng)], pts=[[dy(rng) for _ in range(nv)] for _ in range(n)], w=rng.randint(1, 4) / 2,
                batched={k: [dy(rng) for _ in range(n)] for k in subset}, hetero=(prand(rng, nv, 1, 2) or {(0,) * nv: 1}) if hetero else None)
     cfg["rev_batch_keys"] = rng.random() < 0.5
+    cfg["tmax"] = rng.choice([1.0, 2.0, 0.5, 3.0])        # the equations here ignore Tmax; a heterogeneous parameter is a function of the point the equation receives
     cfg["own_kind"] = {k: rng.choice(["float", "float", "pyint", "intarray"]) for k in KEYS}
     for j, k in enumerate(KEYS):
         if cfg["own_kind"][k] != "float":
@@ -70,7 +71,7 @@ def build(cfg):
         if cfg.get("ic"):
             kw["initial_condition"] = (cfg["ic"]["t0"], jnp.array([cfg["ic"]["u0"]]))
         lw = jinns.loss.LossWeightsODE(dyn_loss=cfg["w"], initial_condition=(cfg.get("ic") or {}).get("w", 1.0), observations=(cfg.get("obs") or {}).get("w", 1.0))
-        L = jinns.loss.LossODE(u=u, dynamic_loss=Eq(eq_params_heterogeneity=het), params=P, loss_weights=lw, **kw)
+        L = jinns.loss.LossODE(u=u, dynamic_loss=Eq(Tmax=cfg.get("tmax", 1.0), eq_params_heterogeneity=het), params=P, loss_weights=lw, **kw)
         batch = ODEBatch(temporal_batch=jnp.array(cfg["pts"])[:, 0], param_batch_dict=pb, obs_batch_dict=ob)
     else:
         if hp:
